@@ -37,7 +37,7 @@ REQUIRED = dict(monitors=['chords', 'exp(-tau)', 'depth', 'depth>=bare', 'depth<
                          'early-exit-observed', 'contrib:CIA', 'contrib:Rayleigh', 'contrib:SimpleClouds',
                          'contrib:FlatMie', 'contrib:LeeMie', 'nlayers:2', 'rerun:evaluated-after-change',
                          'fault:fired:temperature', 'fault:fired:chemistry', 'fault:fired:contribution', 'fault:fired:pressure',
-                         'several:evaluation-judged', 'wn-dtype:i', 'components:judged', 'T-route:mixin',
+                         'several:evaluation-judged', 'wn-dtype:i', 'components:judged', 'T-route:mixin', 'chemistry:makefree+file',
                          'rerun:deepcopy', 'rerun:original-judged-after-its-copy-was-used'])
 TOL = 1e-10
 CUT = float(np.exp(-10.0))
@@ -142,6 +142,8 @@ def make_case(rng, nlayers=None, magnitude=None, nwn=None):
         spec['new_method'] = bool(rng.random() < 0.5)
         spec['cia_magnitude'] = spec['magnitude']
         spec['cia_seed'] = int(rng.integers(0, 2 ** 31))
+        if rng.random() < 0.1:
+            world.make_free_route(rng, spec)         # composition by the ``makefree+file`` route
         if world.is_bound(spec):
             return spec
     raise RuntimeError('generator could not draw a bound atmosphere')
@@ -275,6 +277,7 @@ def oracle(ctx, snap, spec):
 def observe_case(ctx, spec):
     ctx.observe('wn-dtype:' + next(iter(spec['tables'].values()))['wn'].dtype.kind)
     ctx.observe('T-route:mixin' if spec['temperature'].get('scale') else 'T-route:plain')
+    ctx.observe('chemistry:makefree+file' if spec.get('makefree') else 'chemistry:free')
     ctx.observe('method:new' if spec['new_method'] else 'method:old', 'magnitude:' + spec['magnitude'],
                 'nlayers:%d' % spec['nlayers'], 'T:' + spec['temperature']['kind'])
     for c in spec['contributions']:
@@ -371,6 +374,12 @@ def perturb_model(rng, model, max_changes=3):
             new = old * float(10 ** rng.uniform(-0.3, 0.3))
         model[n] = new
         out.append((n, old, new))
+    if rng.random() < 0.15 and hasattr(type(model.star), 'temperature'):
+        # the star has no fitting parameter of its own; its temperature has a public setter
+        old = float(model.star.temperature)
+        new = float(np.clip(old * rng.uniform(0.7, 1.3), 2300.0, 11000.0))
+        model.star.temperature = new
+        out.append(('star.temperature', old, new))
     return out
 
 
